@@ -6,6 +6,7 @@ mod c11;
 mod c12;
 mod c13;
 mod c14;
+mod c16;
 mod c17;
 mod c19;
 mod defs;
@@ -58,6 +59,7 @@ fn main() {
     }
     match args[1].as_str() {
         "child-load" => c17::child_main(),
+        "cmp3" => c16::cmp3(),
         "child-c19" => c19::child_main(&args[2..]),
         "gen" => {
             let prop = args[2].as_str();
@@ -73,6 +75,7 @@ fn main() {
                 "C10" => c10::gen(&mut rng, thorough, &mut out),
                 "C11" => c11::gen(&mut rng, thorough, &mut out),
                 "C12" => c12::gen(&mut rng, thorough, &mut out),
+                "C16" => c16::gen(&mut rng, thorough, &mut out),
                 "C17" => c17::gen(&mut rng, thorough, &mut out),
                 "C19" => c19::gen(&mut rng, thorough, &mut out),
                 "C14" => c14::gen(&mut rng, thorough, &mut out),
